@@ -4,6 +4,7 @@ import PermutaModel.Lemmas.C14Signs
 import PermutaModel.Lemmas.C14CacheStep
 import PermutaModel.Lemmas.C14Occ
 import PermutaModel.Lemmas.C14Gen
+import PermutaModel.Lemmas.C14C15
 
 /-!
 # C14 — pin words decode to their pin permutations and reflect pattern containment
@@ -319,6 +320,139 @@ theorem contains_imp_preFix (w u : Word) (h : contains w u = .ok true) :
     touching the first; `perm(2U) = 01` does not contain `perm(22) = 10` -/
 example : containsPreFix [q2, U] [q2, q2] = .ok true ∧ contains [q2, U] [q2, q2] = .ok false := by
   decide +kernel
+
+/-! ## A5′ — `pinword_contains` and the automaton of C15 encode Theorem 3.13 the same way
+
+Two pieces of code implement Bassino–Bouvel–Pierrot–Rossin Thm 3.13: the search of
+`pinword_contains(w, u)` (this property) and `make_nfa_for_pinword(u)` run on words of the language
+`M` (property C15, model `Model.C15.nfaForPinword` / `nfaAccepts`).  Neither is proved equivalent to
+pattern containment, but they are proved equivalent to **each other** through the translation
+`sp_to_m` / `m_to_sp` between strict pin words and `M`-words.  Strings are `List Char` (what C15's
+model uses); `Letter.ofChar` reads them into C14's alphabet, so `u` ranges over *all* strings. -/
+
+/-- C15's model carries its own small copies of `factor_pinword` and `sp_to_m`; they are the
+    functions of this model (on every string, resp. on every factor: a letter followed by
+    direction letters – the only arguments `make_nfa_for_pinword` passes to `sp_to_m`) -/
+theorem helpers_agree_C15 (u : List Char) :
+    factor (u.map ofChar) = (Model.C15.factorPinword u).map (List.map ofChar)
+    ∧ ∀ f ∈ Model.C15.factorPinword u,
+        spToM (f.map ofChar) = .ok ((Model.C15.spToM f).map (List.map ofChar)) := by
+  refine ⟨C14C15.factor_toL u, fun f hf => ?_⟩
+  obtain ⟨c, t, rfl, ht⟩ := C14C15.factor_shape u f hf
+  exact C14C15.spToM_toL c t ht
+
+example : factor ("14L2UR".toList.map ofChar) = [[q1], [q4, L], [q2, U, R]] := by decide +kernel
+
+/-- **nfa_vs_occurrences** (A5′): let `w` be a strict pin word of the language (a numeral followed
+    by direction letters, no two consecutive ones on one axis; the empty word is allowed, as in
+    `is_strict_pinword`), `m` any component of `sp_to_m(w)`, and `u` any string that does not start
+    with a direction letter (every pin word, and every other string).  Then
+    `pinword_contains(w, u)` returns `True` **iff** the NFA of `make_nfa_for_pinword(u)` accepts `m`.
+    (For `u` starting with a direction letter the two differ: `quadrant(u, 0)` raises `KeyError`,
+    while the NFA looks for the letters of `u` themselves.) -/
+theorem nfa_vs_occurrences (w u m : List Char) (hs : Model.C15.isStrict w = true)
+    (hw : inLang (w.map ofChar) = true) (hm : m ∈ Model.C15.spToM w)
+    (hu : ∀ c, u.head? = some c → c ∉ Model.C15.DIRS) :
+    contains (w.map ofChar) (u.map ofChar) = .ok true ↔
+      Model.C15.nfaAccepts (Model.C15.nfaForPinword u) m = true := by
+  cases w with
+  | nil =>
+    simp only [Model.C15.spToM, List.mem_cons, List.not_mem_nil, or_false] at hm
+    subst hm
+    exact C14C15.core_nil u
+  | cons c0 t0 =>
+    obtain ⟨a, b, hc, hab⟩ := C14C15.ctx_of_strict c0 t0 m hs hw hm
+    exact C14C15.core hc m u hab hu
+
+/-- non-vacuity, both answers: `w = 2ULD ↦ m = ULULD`; `u = 2U3` is found (`ULU·LD`), `u = 24` is not.
+    The word side is evaluated, the automaton side follows by the theorem. -/
+example : Model.C15.nfaAccepts (Model.C15.nfaForPinword "2U3".toList) "ULULD".toList = true
+    ∧ Model.C15.nfaAccepts (Model.C15.nfaForPinword "24".toList) "ULULD".toList = false := by
+  have hm : "ULULD".toList ∈ Model.C15.spToM "2ULD".toList := by decide
+  have h := fun u hu => nfa_vs_occurrences "2ULD".toList u "ULULD".toList (by decide) (by decide) hm hu
+  constructor
+  · exact (h "2U3".toList (by decide)).mp (by decide +kernel)
+  · cases hb : Model.C15.nfaAccepts (Model.C15.nfaForPinword "24".toList) "ULULD".toList with
+    | false => rfl
+    | true => exact absurd ((h "24".toList (by decide)).mpr hb) (by decide +kernel)
+
+/-- … and it separates the fixed `pinword_contains` from the one before commit ff59958 (finding
+    `C14-touch`): on `w = 2U ↦ m = ULU`, `u = 22` the automaton says no, like the fixed search; the
+    pre-fix search said yes (example after `contains_imp_preFix`) -/
+example : Model.C15.nfaAccepts (Model.C15.nfaForPinword "22".toList) "ULU".toList = false := by
+  cases hb : Model.C15.nfaAccepts (Model.C15.nfaForPinword "22".toList) "ULU".toList with
+  | false => rfl
+  | true =>
+    exact absurd ((nfa_vs_occurrences "2U".toList "22".toList "ULU".toList (by decide) (by decide)
+      (by decide) (by decide)).mpr hb) (by decide +kernel)
+
+/-- the same read from the automaton's side: for **every word `m` of `M`** (direction letters, no
+    two consecutive ones on one axis – the language of `make_dfa_for_m`, `C15.dfaM_language`) with at
+    least two letters, `m_to_sp(m)` is a strict pin word `w` of the language, and the NFA of `u`
+    accepts `m` iff `pinword_contains(w, u)` -/
+theorem nfa_vs_occurrences_M (m u : List Char) (hm : Spec.C15.InM m) (hlen : 2 ≤ m.length)
+    (hu : ∀ c, u.head? = some c → c ∉ Model.C15.DIRS) :
+    ∃ w, mToSp (m.map ofChar) = .ok w ∧ isStrict w = true ∧ inLang w = true ∧
+      (Model.C15.nfaAccepts (Model.C15.nfaForPinword u) m = true ↔
+        contains w (u.map ofChar) = .ok true) := by
+  obtain ⟨q, ds, a, b, hab, hc, hsp⟩ :=
+    C14C15.ctx_of_M (m.map ofChar) (C14C15.inM_of_InM m hm) (by simpa using hlen)
+  refine ⟨q :: ds, hsp, ?_, hc.lang, (C14C15.core hc m u hab hu).symm⟩
+  simp only [isStrict, hc.hq, Bool.true_and, List.all_eq_true]
+  exact hc.hds
+
+example : Spec.C15.InM "ULULD".toList ∧ mToSp ("ULULD".toList.map ofChar) = .ok [q2, U, L, D] := by
+  refine ⟨⟨by unfold Spec.C15.AStar; decide, ?_⟩, by decide⟩
+  intro x a b v h
+  have : x.length < 4 := by
+    have := congrArg List.length h; simp at this; omega
+  match x, this with
+  | [], _ => cases h; decide
+  | [_], _ => cases h; decide
+  | [_, _], _ => cases h; decide
+  | [_, _, _], _ => cases h; decide
+
+/-- **nfa_vs_occurrences_general**: the same for **every pin word `w` of the language** (several
+    numerals allowed).  `w` has no single `M`-word; the code handles it factor by factor, and so does
+    the statement: `pinword_contains(w, u)` returns `True` iff the strong factors of `u` can be cut
+    into consecutive (possibly empty) groups, one group per strong factor `x` of `w`, such that the
+    automaton built by `make_nfa_for_pinword` from the group accepts `sp_to_m(x)` – every component
+    of it (first statement) or, equivalently, some component (second statement).  This is the shape
+    of Theorem 3.13 for arbitrary `w`; a factor of `u` may start exactly on a numeral of `w` (the
+    `word[nxt] in QUADS` clause of the gap test), never on a direction letter that touches the
+    previous factor. -/
+theorem nfa_vs_occurrences_general (w u : List Char) (hw : inLang (w.map ofChar) = true)
+    (hu : ∀ c, u.head? = some c → c ∉ Model.C15.DIRS) :
+    (contains (w.map ofChar) (u.map ofChar) = .ok true ↔
+      ∃ gs : List (List (List Char)), gs.flatten = Model.C15.factorPinword u ∧
+        List.Forall₂ (fun x g => ∀ m ∈ Model.C15.spToM x,
+          Model.C15.nfaAccepts (Model.C15.nfaOfDecomp (g.map Model.C15.spToM)) m = true)
+          (Model.C15.factorPinword w) gs)
+    ∧ (contains (w.map ofChar) (u.map ofChar) = .ok true ↔
+      ∃ gs : List (List (List Char)), gs.flatten = Model.C15.factorPinword u ∧
+        List.Forall₂ (fun x g => ∃ m ∈ Model.C15.spToM x,
+          Model.C15.nfaAccepts (Model.C15.nfaOfDecomp (g.map Model.C15.spToM)) m = true)
+          (Model.C15.factorPinword w) gs) :=
+  ⟨C14C15.general_all w u hw hu, C14C15.general_some w u hw hu⟩
+
+/-- non-vacuity: `w = 2U3` (factors `2U`, `3`) contains `u = 23` (one factor of `u` per factor of `w`:
+    the second one starts on the numeral `3`, touching the first), but `w = 2U` does not (finding
+    `C14-touch`): no way to cut `2·2` into one group whose automaton accepts `ULU` -/
+example :
+    (∃ gs : List (List (List Char)), gs.flatten = Model.C15.factorPinword "23".toList ∧
+      List.Forall₂ (fun x g => ∀ m ∈ Model.C15.spToM x,
+        Model.C15.nfaAccepts (Model.C15.nfaOfDecomp (g.map Model.C15.spToM)) m = true)
+        (Model.C15.factorPinword "2U3".toList) gs)
+    ∧ ¬ (∃ gs : List (List (List Char)), gs.flatten = Model.C15.factorPinword "22".toList ∧
+      List.Forall₂ (fun x g => ∃ m ∈ Model.C15.spToM x,
+        Model.C15.nfaAccepts (Model.C15.nfaOfDecomp (g.map Model.C15.spToM)) m = true)
+        (Model.C15.factorPinword "2U".toList) gs) := by
+  constructor
+  · exact (nfa_vs_occurrences_general "2U3".toList "23".toList (by decide) (by decide)).1.mp
+      (by decide +kernel)
+  · intro h
+    exact absurd ((nfa_vs_occurrences_general "2U".toList "22".toList (by decide) (by decide)).2.mpr h)
+      (by decide +kernel)
 
 /-! ## tie to the source: the tables the model uses are the ones in the repository -/
 
